@@ -52,6 +52,11 @@ fn content_json(c: &Content) -> Value {
 }
 
 /// id list for a query about `rp`: (class, ids)
+/// descriptors for an id list; `known_types` false = every descriptor carries an unknown type string
+fn descriptors(ids: &Option<Vec<Vec<u8>>>, known_types: bool) -> Option<Vec<PublicKeyCredentialDescriptor>> {
+    ids.as_ref().map(|l| l.iter().map(|i| crate::util::descriptor_typed(i, known_types)).collect())
+}
+
 fn gen_ids(rng: &mut Rng, c: &Content, rp: &str) -> (&'static str, Option<Vec<Vec<u8>>>) {
     let own: Vec<Vec<u8>> = c.creds.iter().filter(|p| p.rp_id == rp).map(|p| p.credential_id.to_vec()).collect();
     let foreign: Vec<Vec<u8>> = c.creds.iter().filter(|p| p.rp_id != rp).map(|p| p.credential_id.to_vec()).collect();
@@ -90,10 +95,16 @@ fn part_a(rep: &mut Report, seed: u64, index: u64) {
         let case = json!({"index": index, "part": "a", "step": step, "op": if is_get {"get_assertion"} else {"make_credential"}, "rp": rp, "list_class": class,
             "list": ids.as_ref().map(|l| l.iter().map(|i| hex_short(i)).collect::<Vec<_>>()), "store": content_json(&cur)});
         rig.log.clear();
-        let list: Option<Vec<PublicKeyCredentialDescriptor>> = ids.as_ref().map(|l| l.iter().map(|i| descriptor(i)).collect());
+        let known_types = !rng.chance(1, 5);
+        let case = {
+            let mut c = case;
+            c["descriptor_types_known"] = json!(known_types);
+            c
+        };
+        let list: Option<Vec<PublicKeyCredentialDescriptor>> = descriptors(&ids, known_types);
         let nonempty = ids.as_ref().map_or(false, |l| !l.is_empty());
         let own_first = snapshot.iter().find(|c| c.rp_id == rp).map(|c| c.id.clone());
-        let key = format!("a|{}|{class}|rp{}|n{}", is_get, RPS.iter().position(|r| *r == rp).unwrap(), snapshot.len().min(8));
+        let key = format!("a|{}|{class}|t{known_types}|rp{}|n{}", is_get, RPS.iter().position(|r| *r == rp).unwrap(), snapshot.len().min(8));
         if is_get {
             let res = catch(|| block_on(auth.get_assertion(ga_request(rp, &[5u8; 32], list, None, true, false))));
             let res = match res {
